@@ -90,6 +90,23 @@ func H_T1_Chars() {
 		}
 		zv.Assert(found, "取样 never splits a character")
 	}
+	// positions count characters whatever their encoded width: the same index
+	// pair on a text of n one-byte letters selects the same positions
+	plain := []rune("abcdefgh")[:n]
+	ref, errRef, pRef := method(value.NewString(string(plain)), "取样", value.NewNumber(i), value.NewNumber(j))
+	zv.Assert(pRef == nil, "取样 on a plain text: no panic")
+	zv.Assert((errRef == nil) == (err3 == nil), "取样 accepts the same index pairs whatever the characters' encoded width")
+	if errRef == nil && err3 == nil {
+		rr, okr := ref.(*value.String)
+		zv.Assert(okr, "取样 yields a text")
+		got := []rune(rr.GetValue())
+		want := []rune{}
+		if len(got) > 0 {
+			start := int(got[0] - 'a')
+			want = text[start : start+len(got)]
+		}
+		zv.Assert(textIs(res, want), "取样 selects the same character positions whatever the characters' encoded width (negative indices included)")
+	}
 }
 
 // ---------------------------------------------------------------- formatting
